@@ -1,5 +1,5 @@
 SPECIFICATION Spec
-CONSTANTS Variant = "found" MaxCmds = 5
+CONSTANTS Variant = "found" RecordHist = FALSE MaxCmds = 5
 CONSTANT Threads <- MCThreads1
 CONSTANT Prog <- MCProg
 CONSTANT Lines <- MCLines
